@@ -1,14 +1,545 @@
-//! C02 harness (stub).
+//! C02: sequence k-mers hash to the documented canonical values in every mode.
+//!
+//! `dump`  — behavioural extraction of the finite tables (used by translator/c02.py)
+//! `gen`   — request lines; `exec` — answers them by running the real crate.
+//!
+//! ops (bytes always in hex, `-` = empty):
+//!   s2h    <mol> <k> <seed> <force> <isprotein> <hexseq>  raw `SeqToHashes` item stream
+//!   feed   <mol> <k> <seed> <force> <isprotein> <hexseq>  the `add_hash` calls the real default
+//!                                                         `add_sequence`/`add_protein` make, in order
+//!   addseq <mol> <k> <seed> <force> <isprotein> <hexseq>  mins() of a scaled=1 KmerMinHash
+//!   capi   <mol> <k> <seed> <force> <zeroes> <isprotein> <hexseq>  kmerminhash_seq_to_hashes
+//!   murmur <seed> <hexbytes>     codon <hex>     toaa <mol> <hex>     rc <hex>
+use sourmash::encodings::{aa_to_dayhoff, aa_to_hp, revcomp, to_aa, translate_codon, HashFunctions, VALID};
+use sourmash::ffi::minhash::{
+    kmerminhash_free, kmerminhash_new, kmerminhash_seq_to_hashes, kmerminhash_slice_free,
+};
+use sourmash::ffi::utils::{sourmash_err_clear, sourmash_err_get_last_code};
+use sourmash::signature::{SeqToHashes, SigsTrait};
+use sourmash::sketch::minhash::KmerMinHash;
+use sourmash::Error;
+use std::io::Write;
 use verif_harness::*;
 
-fn gen(_a: &Args) {
-    let mut o = Out::new();
-    o.case("stub");
+// ------------------------------------------------------------------------------------------ dump
+
+fn codon_res(c: &[u8]) -> String {
+    match translate_codon(c) {
+        Ok(v) => v.to_string(),
+        Err(e) => format!("err:{}", variant(&e)),
+    }
+}
+
+fn dump() {
+    let out = std::io::stdout();
+    let mut w = std::io::BufWriter::new(out.lock());
+    let row = |name: &str, f: &dyn Fn(u8) -> u64| -> String {
+        format!(
+            "{} {}",
+            name,
+            (0..=255u8).map(|b| f(b).to_string()).collect::<Vec<_>>().join(",")
+        )
+    };
+    writeln!(w, "{}", row("dayhoff", &|b| aa_to_dayhoff(b) as u64)).unwrap();
+    writeln!(w, "{}", row("hp", &|b| aa_to_hp(b) as u64)).unwrap();
+    writeln!(w, "{}", row("complement", &|b| {
+        let r = revcomp(&[b]);
+        assert_eq!(r.len(), 1);
+        r[0] as u64
+    }))
+    .unwrap();
+    writeln!(w, "{}", row("valid", &|b| VALID[b as usize] as u64)).unwrap();
+    // revcomp reverses: one asymmetric probe per length 0..4 so that the `rev()` is observed too
+    writeln!(w, "revcomp_probe {}", hex(&revcomp(b"AACGTN\x00z"))).unwrap();
+    // translate_codon on EVERY 3-byte input: the entries that are not X are the behavioural CODONTABLE
+    let mut nonx = 0u64;
+    for a in 0..=255u8 {
+        for b in 0..=255u8 {
+            for c in 0..=255u8 {
+                match translate_codon(&[a, b, c]) {
+                    Ok(b'X') => {}
+                    Ok(v) => {
+                        nonx += 1;
+                        writeln!(w, "codon3 {} {} {} {}", a, b, c, v).unwrap();
+                    }
+                    Err(e) => writeln!(w, "codon3err {} {} {} {}", a, b, c, variant(&e)).unwrap(),
+                }
+            }
+        }
+    }
+    writeln!(w, "codon3_nonx {}", nonx).unwrap();
+    // the 125 codons over {A,C,G,T,N} with their value (X included), and all 1-/2-byte inputs over it
+    let al = b"ACGTN";
+    for &a in al {
+        writeln!(w, "codon1 {} {}", a, codon_res(&[a])).unwrap();
+        for &b in al {
+            writeln!(w, "codon2 {} {} {}", a, b, codon_res(&[a, b])).unwrap();
+            for &c in al {
+                writeln!(w, "codon125 {} {} {} {}", a, b, c, codon_res(&[a, b, c])).unwrap();
+            }
+        }
+    }
+    // every 1-byte input is X; every 2-byte input xy behaves as xyN
+    let one_nonx = (0..=255u8).filter(|&a| translate_codon(&[a]).ok() != Some(b'X')).count();
+    writeln!(w, "codon1_nonx {}", one_nonx).unwrap();
+    let mut two_mismatch = 0u64;
+    for a in 0..=255u8 {
+        for b in 0..=255u8 {
+            if codon_res(&[a, b]) != codon_res(&[a, b, b'N']) {
+                two_mismatch += 1;
+            }
+        }
+    }
+    writeln!(w, "codon2_vs_xyN_mismatch {}", two_mismatch).unwrap();
+    writeln!(w, "codonlen0 {}", codon_res(&[])).unwrap();
+    writeln!(w, "codonlen4 {}", codon_res(b"ACGT")).unwrap();
+    writeln!(w, "murmur_ACG_42 {}", sourmash::_hash_murmur(b"ACG", 42)).unwrap();
+    w.flush().unwrap();
+}
+
+// ------------------------------------------------------------------------------------------- gen
+
+const MOLS: [&str; 4] = ["dna", "protein", "dayhoff", "hp"];
+const AAS: &[u8] = b"ACDEFGHIKLMNPQRSTVWY";
+
+struct G {
+    r: Rng,
+    o: Out,
+    nseq: u64,
+}
+
+impl G {
+    fn seed(&mut self) -> u64 {
+        match self.r.below(5) {
+            0 => 0,
+            1 | 2 => 42,
+            3 => u64::MAX,
+            _ => self.r.next(),
+        }
+    }
+    /// a byte that is not one of ACGT after upper-casing
+    fn bad(&mut self) -> u8 {
+        match self.r.below(10) {
+            0 | 1 | 2 => b'N',
+            3 => b'n',
+            4 => *self.r.pick(b"RYKMSWBDHVUXZ-.* \t\n0@[`{"),
+            5 => *self.r.pick(b"rykmswbdhvux"),
+            6 => self.r.below(0x20) as u8,
+            7 => 0x7f,
+            8 => *self.r.pick(&[0x80u8, 0xc3, 0xa9, 0xe2, 0x82, 0xac, 0xf0, 0xff, 0xfe, 0xc0, 0xbf]),
+            _ => self.r.range(0x80, 0xff) as u8,
+        }
+    }
+    fn base(&mut self, lower: u64) -> u8 {
+        let b = *self.r.pick(b"ACGT");
+        if self.r.chance(lower, 100) {
+            b.to_ascii_lowercase()
+        } else {
+            b
+        }
+    }
+    fn dna(&mut self, len: usize, lower: u64) -> Vec<u8> {
+        (0..len).map(|_| self.base(lower)).collect()
+    }
+    fn residue(&mut self) -> u8 {
+        match self.r.below(20) {
+            0 => *self.r.pick(b"*XBZJUO"),
+            1 => self.r.pick(AAS).to_ascii_lowercase(),
+            2 => match self.r.below(4) {
+                0 => *self.r.pick(b" -.0@[`{*"),
+                1 => self.r.below(0x20) as u8,
+                2 => *self.r.pick(&[0x80u8, 0xc3, 0xa9, 0xff]),
+                _ => self.r.range(0x80, 0xff) as u8,
+            },
+            _ => *self.r.pick(AAS),
+        }
+    }
+    /// one sequence = one case: the raw stream, the fed hashes, the sketch, the C API
+    fn emit(&mut self, what: &str, mol: &str, k: u64, seed: u64, force: bool, isprot: bool, seq: &[u8]) {
+        self.o.case(what);
+        self.nseq += 1;
+        let f = force as u8;
+        let p = isprot as u8;
+        let h = hex(seq);
+        self.o.op(&format!("s2h {} {} {} {} {} {}", mol, k, seed, f, p, h));
+        self.o.op(&format!("feed {} {} {} {} {} {}", mol, k, seed, f, p, h));
+        self.o.op(&format!("addseq {} {} {} {} {} {}", mol, k, seed, f, p, h));
+        // the C API truncates nothing (buffer + length), but the ksize is a u32 and the scaled 1
+        let z = self.r.below(2);
+        self.o.op(&format!("capi {} {} {} {} {} {} {}", mol, k, seed, f, z, p, h));
+    }
+    /// DNA sequence of length `len` with invalid bases at the given positions
+    fn dna_with(&mut self, len: usize, lower: u64, bad_at: &[usize]) -> Vec<u8> {
+        let mut s = self.dna(len, lower);
+        for &p in bad_at {
+            if p < len {
+                s[p] = self.bad();
+            }
+        }
+        s
+    }
+}
+
+fn dna_k(r: &mut Rng) -> u64 {
+    match r.below(6) {
+        0 => r.range(1, 4),
+        1 => *r.pick(&[21u64, 31, 32, 33, 51, 63, 64]),
+        2 => r.range(1, 64),
+        3 => r.range(5, 16),
+        4 => *r.pick(&[1u64, 2, 3, 7, 8, 9, 15, 16, 17]),
+        _ => r.range(1, 33),
+    }
+}
+fn prot_k(r: &mut Rng) -> u64 {
+    match r.below(5) {
+        0 | 1 | 2 => 3 * r.range(1, 11),
+        3 => r.range(3, 35), // non-multiples of 3 included
+        _ => *r.pick(&[3u64, 4, 5, 6, 7, 8, 30, 31, 32, 33, 34, 35]),
+    }
+}
+
+fn gen(a: &Args) {
+    let thorough = a.tier == "thorough";
+    let mul: u64 = if thorough { 25 } else { 1 };
+    let mut g = G { r: Rng::new(a.seed), o: Out::new(), nseq: 0 };
+
+    // ---- fixed vectors: murmur suite vector, the whole codon alphabet, table probes
+    g.o.case("fixed");
+    g.o.op("selfcheck");
+    g.o.op(&format!("murmur 42 {}", hex(b"ACG")));
+    g.o.op("murmur 0 -");
+    g.o.op("murmur 42 -");
+    let al = b"ACGTNacgtnX\x00\xc3\xff";
+    for &x in al {
+        g.o.op(&format!("codon {}", hex(&[x])));
+        for &y in al {
+            g.o.op(&format!("codon {}", hex(&[x, y])));
+            for &z in al {
+                g.o.op(&format!("codon {}", hex(&[x, y, z])));
+            }
+        }
+    }
+    g.o.op("codon -");
+    g.o.op(&format!("codon {}", hex(b"ACGT")));
+    let all: Vec<u8> = (0..=255u8).collect();
+    g.o.op(&format!("rc {}", hex(&all)));
+    g.o.op(&format!("rc {}", hex(b"AACGTN")));
+    for m in ["protein", "dayhoff", "hp"] {
+        // to_aa of a string whose codons are `X` + every byte twice: exercises the reduction tables
+        g.o.op(&format!("toaa {} {}", m, hex(b"ATGGCCTAAGGNTTNNNNAC")));
+    }
+
+    // ---- murmur on random byte strings of length 0..64
+    g.o.case("murmur");
+    for i in 0..(1500 * mul) {
+        if i % 300 == 299 {
+            g.o.case("murmur");
+        }
+        let len = if i < 130 { (i / 2) as usize } else { g.r.below(65) as usize };
+        let bs: Vec<u8> = (0..len).map(|_| g.r.next() as u8).collect();
+        let s = g.seed();
+        g.o.op(&format!("murmur {} {}", s, hex(&bs)));
+    }
+    // codons / to_aa / revcomp on random bytes
+    g.o.case("tables");
+    for i in 0..(600 * mul) {
+        if i % 200 == 199 {
+            g.o.case("tables");
+        }
+        let len = g.r.below(5) as usize;
+        let bs: Vec<u8> = (0..len)
+            .map(|_| if g.r.chance(4, 5) { *g.r.pick(b"ACGTN") } else { g.r.next() as u8 })
+            .collect();
+        g.o.op(&format!("codon {}", hex(&bs)));
+        let len = g.r.below(20) as usize;
+        let bs: Vec<u8> = (0..len)
+            .map(|_| if g.r.chance(9, 10) { *g.r.pick(b"ACGTNacgtn") } else { g.r.next() as u8 })
+            .collect();
+        g.o.op(&format!("rc {}", hex(&bs)));
+        let m = *g.r.pick(&["protein", "dayhoff", "hp"]);
+        g.o.op(&format!("toaa {} {}", m, hex(&bs)));
+    }
+
+    // ---- DNA, systematic: one invalid base at every position, pairs at distance 1, k-1, k
+    let ks: &[u64] = if thorough { &[1, 2, 3, 4, 5, 7, 16, 21, 31, 32, 33, 64] } else { &[1, 2, 3, 4, 5, 21] };
+    for &k in ks {
+        let ku = k as usize;
+        let len = 2 * ku + 3;
+        for force in [false, true] {
+            for p in 0..len {
+                let s = g.dna_with(len, 0, &[p]);
+                g.emit("dna-one-bad", "dna", k, 42, force, false, &s);
+            }
+            for p in 0..len {
+                for d in [1usize, ku.saturating_sub(1).max(1), ku, ku + 1] {
+                    if force || p % 3 == 0 {
+                        let s = g.dna_with(len + ku, 0, &[p, p + d]);
+                        g.emit("dna-two-bad", "dna", k, 42, force, false, &s);
+                    }
+                }
+            }
+        }
+    }
+    // ---- DNA, random: lengths 0..3k+7, invalid bases relative to a window
+    for _ in 0..(2200 * mul) {
+        let k = dna_k(&mut g.r);
+        let ku = k as usize;
+        let len = match g.r.below(8) {
+            0 => g.r.below(k + 2) as usize,                      // around / below k
+            1 => ku,
+            2 => ku + 1,
+            _ => g.r.below(3 * k + 8) as usize,
+        };
+        let lower = *g.r.pick(&[0u64, 0, 10, 50, 100]);
+        let mut bad: Vec<usize> = vec![];
+        if len > 0 {
+            match g.r.below(7) {
+                0 | 1 => {}                                                    // all valid
+                2 => bad.push(g.r.below(len as u64) as usize),
+                3 => {
+                    // relative to a window start w: w, w+k-1, w+k, and adjacent pairs
+                    let w = g.r.below(len as u64) as usize;
+                    for off in [0usize, ku - 1, ku, ku + 1, 1] {
+                        if g.r.chance(1, 2) {
+                            bad.push(w + off);
+                        }
+                    }
+                }
+                4 => {
+                    let p = g.r.below(len as u64) as usize;
+                    bad.push(p);
+                    bad.push(p + 1);
+                }
+                5 => {
+                    bad.push(0);
+                    if g.r.chance(1, 2) {
+                        bad.push(len - 1);
+                    }
+                }
+                _ => {
+                    for _ in 0..g.r.range(1, 6) {
+                        bad.push(g.r.below(len as u64) as usize);
+                    }
+                }
+            }
+        }
+        let s = g.dna_with(len, lower, &bad);
+        let seed = g.seed();
+        let force = g.r.chance(1, 2);
+        g.emit("dna", "dna", k, seed, force, false, &s);
+        // its reverse complement (all-ACGT sequences give the same multiset; checked by `addseq`)
+        if bad.is_empty() && lower == 0 && g.r.chance(1, 3) {
+            let rc = revcomp(&s);
+            g.emit("dna-rc", "dna", k, seed, force, false, &rc);
+        }
+    }
+    // ---- protein family, protein input
+    for _ in 0..(1100 * mul) {
+        let mol = *g.r.pick(&MOLS[1..]);
+        let k = prot_k(&mut g.r);
+        let kk = k / 3;
+        let len = match g.r.below(6) {
+            0 => g.r.below(kk + 2) as usize,
+            1 => kk as usize,
+            _ => g.r.below(3 * kk + 8) as usize,
+        };
+        let s: Vec<u8> = (0..len).map(|_| g.residue()).collect();
+        let seed = g.seed();
+        let force = g.r.chance(1, 4);
+        g.emit("prot", mol, k, seed, force, true, &s);
+    }
+    // ---- protein family, DNA input (six-frame translation)
+    for _ in 0..(1300 * mul) {
+        let mol = *g.r.pick(&MOLS[1..]);
+        let k = prot_k(&mut g.r);
+        let t = 3 * (k / 3);
+        let len = match g.r.below(6) {
+            0 => g.r.below(t + 3) as usize,
+            1 => g.r.range(t.saturating_sub(2), t + 3) as usize, // the len >= 3*(k/3) boundary
+            _ => g.r.below(3 * k + 8) as usize,
+        };
+        let lower = *g.r.pick(&[0u64, 0, 10, 100]);
+        let mut s = g.dna(len, lower);
+        // N (wobble), other letters, high bytes at random offsets
+        let nbad = match g.r.below(4) { 0 => 0, 1 => 1, _ => g.r.below(1 + len as u64 / 3) };
+        for _ in 0..nbad {
+            if len > 0 {
+                let p = g.r.below(len as u64) as usize;
+                s[p] = g.bad();
+            }
+        }
+        let seed = g.seed();
+        let force = g.r.chance(1, 2);
+        g.emit("translate", mol, k, seed, force, false, &s);
+    }
+    // ---- DNA sketch given protein input (InvalidHashFunction), all four with the other flag
+    for _ in 0..(120 * mul) {
+        let k = dna_k(&mut g.r);
+        let len = g.r.below(3 * k + 8) as usize;
+        let s = g.dna(len, 0);
+        let seed = g.seed();
+        let force = g.r.chance(1, 2);
+        g.emit("dna-as-protein", "dna", k, seed, force, true, &s);
+    }
+    // ---- degenerate k: DNA k = 0 and protein input with k < 3 (window of 0 residues)
+    for _ in 0..(40 * mul) {
+        let len = g.r.below(8) as usize;
+        let s = g.dna(len, 0);
+        g.emit("k0", "dna", 0, 42, false, false, &s);
+        let mol = *g.r.pick(&MOLS[1..]);
+        let k = g.r.below(3);
+        g.emit("k0-prot", mol, k, 42, false, true, &s);
+    }
+    let n = g.nseq;
+    drop(g);
+    eprintln!("c02 gen: {} sequences", n);
+}
+
+// ------------------------------------------------------------------------------------------ exec
+
+fn variant(e: &Error) -> String {
+    let d = format!("{:?}", e);
+    d.split(|c: char| !c.is_alphanumeric()).next().unwrap_or("").to_string()
+}
+
+fn hf(mol: &str) -> HashFunctions {
+    match mol {
+        "dna" => HashFunctions::Murmur64Dna,
+        "protein" => HashFunctions::Murmur64Protein,
+        "dayhoff" => HashFunctions::Murmur64Dayhoff,
+        "hp" => HashFunctions::Murmur64Hp,
+        _ => panic!("mol"),
+    }
+}
+
+/// records the `add_hash` calls of the real (default) `add_sequence` / `add_protein`
+struct Recorder {
+    k: usize,
+    seed: u64,
+    hf: HashFunctions,
+    got: Vec<u64>,
+}
+impl SigsTrait for Recorder {
+    fn size(&self) -> usize {
+        self.got.len()
+    }
+    fn to_vec(&self) -> Vec<u64> {
+        self.got.clone()
+    }
+    fn ksize(&self) -> usize {
+        self.k
+    }
+    fn check_compatible(&self, _: &Self) -> Result<(), Error> {
+        Ok(())
+    }
+    fn seed(&self) -> u64 {
+        self.seed
+    }
+    fn hash_function(&self) -> HashFunctions {
+        self.hf.clone()
+    }
+    fn add_hash(&mut self, hash: u64) {
+        self.got.push(hash);
+    }
 }
 
 fn step(_: &mut (), ws: &[&str]) -> String {
     match ws[0] {
         "case" => "ok".into(),
+        "selfcheck" => "ok".into(),
+        "murmur" => sourmash::_hash_murmur(&unhex(ws[2]), ws[1].parse().unwrap()).to_string(),
+        "codon" => match translate_codon(&unhex(ws[1])) {
+            Ok(v) => v.to_string(),
+            Err(e) => format!("err {}", variant(&e)),
+        },
+        "rc" => hex(&revcomp(&unhex(ws[1]))),
+        "toaa" => {
+            let m = hf(ws[1]);
+            match to_aa(&unhex(ws[2]), m.dayhoff(), m.hp()) {
+                Ok(v) => hex(&v),
+                Err(e) => format!("err {}", variant(&e)),
+            }
+        }
+        "s2h" | "feed" | "addseq" => {
+            let m = hf(ws[1]);
+            let k: usize = ws[2].parse().unwrap();
+            let seed: u64 = ws[3].parse().unwrap();
+            let force = ws[4] == "1";
+            let isprot = ws[5] == "1";
+            let seq = unhex(ws[6]);
+            match ws[0] {
+                "s2h" => {
+                    let mut out: Vec<String> = vec![];
+                    for it in SeqToHashes::new(&seq, k, force, isprot, m, seed) {
+                        match it {
+                            Ok(h) => out.push(h.to_string()),
+                            Err(e) => {
+                                out.push(format!("E:{}", variant(&e)));
+                                break;
+                            }
+                        }
+                    }
+                    if out.is_empty() { "-".into() } else { out.join(",") }
+                }
+                "feed" => {
+                    let mut r = Recorder { k, seed, hf: m, got: vec![] };
+                    let res = if isprot { r.add_protein(&seq) } else { r.add_sequence(&seq, force) };
+                    let tail = match res {
+                        Ok(()) => "ok".to_string(),
+                        Err(e) => format!("err {}", variant(&e)),
+                    };
+                    format!("{}|{}", show_nats(r.got), tail)
+                }
+                _ => {
+                    let mut mh = KmerMinHash::new(1, k as u32, m, seed, false, 0);
+                    let res = if isprot { mh.add_protein(&seq) } else { mh.add_sequence(&seq, force) };
+                    match res {
+                        Ok(()) => show_nats(mh.mins()),
+                        Err(e) => format!("err {}", variant(&e)),
+                    }
+                }
+            }
+        }
+        "capi" => {
+            use sourmash::ffi::HashFunctions as F;
+            let m = match ws[1] {
+                "dna" => F::Murmur64Dna,
+                "protein" => F::Murmur64Protein,
+                "dayhoff" => F::Murmur64Dayhoff,
+                _ => F::Murmur64Hp,
+            };
+            let k: u32 = ws[2].parse().unwrap();
+            let seed: u64 = ws[3].parse().unwrap();
+            let force = ws[4] == "1";
+            let zeroes = ws[5] == "1";
+            let isprot = ws[6] == "1";
+            let seq = unhex(ws[7]);
+            unsafe {
+                sourmash_err_clear();
+                let mh = kmerminhash_new(1, k, m, seed, false, 0);
+                let mut size: usize = 0;
+                let p = kmerminhash_seq_to_hashes(
+                    mh,
+                    seq.as_ptr() as *const std::os::raw::c_char,
+                    seq.len(),
+                    force,
+                    zeroes,
+                    isprot,
+                    &mut size,
+                );
+                let code = sourmash_err_get_last_code() as u32;
+                let r = if code != 0 {
+                    sourmash_err_clear();
+                    format!("err {}", code)
+                } else {
+                    let v: Vec<u64> = std::slice::from_raw_parts(p, size).to_vec();
+                    kmerminhash_slice_free(p as *mut u64, size);
+                    show_nats(v)
+                };
+                kmerminhash_free(mh);
+                r
+            }
+        }
         _ => "bad-op".into(),
     }
 }
@@ -16,6 +547,7 @@ fn step(_: &mut (), ws: &[&str]) -> String {
 fn main() {
     let a = args();
     match a.mode.as_str() {
+        "dump" => dump(),
         "gen" => gen(&a),
         "exec" => exec_loop(|| (), step),
         _ => panic!("mode"),
